@@ -152,7 +152,10 @@ class Sym:
             return DictV(self.array(name + ".dom", v.dom.sort().domain(), z3.BoolSort()),
                          self.array(name + ".val", v.val.sort().domain(), v.val.sort().range()))
         if isinstance(v, Opaque):
-            return Opaque(self.const(name, v.term.sort()))
+            o = Opaque(self.const(name, v.term.sort()))
+            if getattr(v, "shape", None):
+                o.shape = v.shape        # a loop may rewrite the entries of an n-d array, not its shape
+            return o
         if v is None:
             return None
         raise OutOfSubset("cannot havoc value %r (%s)" % (v, name))
@@ -385,6 +388,12 @@ class Executor:
 
     def safety(self, what, goal, node):
         if isinstance(goal, bool) and goal:
+            return
+        if what in getattr(self.contract, "assumed_safety", ()):
+            # the sidecar declares this class of run-time conditions an explicit assumption of the contract (listed in the evidence), e.g. a
+            # normalising sum that is not zero: the condition is assumed from here on instead of being proved
+            self.assumed.append("safety condition `%s` at L%d ASSUMED by the contract (%s)" % (what, node.lineno, getattr(self.contract, "assumed_safety_note", "")))
+            self.assume(goal if not isinstance(goal, bool) else z3.BoolVal(goal), "assumed-safety/" + what)
             return
         if is_z3(goal):
             g = z3.simplify(goal)
@@ -762,6 +771,13 @@ class Executor:
                 key = self.as_key(self.eval(t.slice, env), base.dom.sort().domain())
                 base.dom = z3.Store(base.dom, key, z3.BoolVal(True))
                 base.val = z3.Store(base.val, key, self.to_term(val, base.val.sort().range()))
+            elif isinstance(base, Opaque) and (hasattr(base, "root") or getattr(base, "shape", None)):
+                # store into an opaque n-d array: its content is not modelled, so the whole array becomes a fresh unknown (every later read sees it)
+                self.eval(t.slice, env)
+                root = getattr(base, "root", base)
+                from . import prelude
+                root.term = self.S.const("ndarray.store", prelude.U)
+                self.dropped.add("store into a multi-dimensional numpy array (content opaque, array havoced)")
             else:
                 raise OutOfSubset("subscript store on %r" % (base,), t)
         else:
